@@ -27,10 +27,10 @@ from worlds.server_world import reply_codes
 PROPERTY = 'C08'
 LEVEL = 'exploration'
 EXHAUSTIVE = True
-RULE = ('S: 4 session prefixes x 7 injected byte strings x {same segment, later segment} x 5 TLS-channel scripts '
+RULE = ('S: 4 session prefixes x 7 injected byte strings x {same segment, later segment, (thorough) split at every byte between the two} x 5 TLS-channel scripts '
         '(+ immediate TLS); C: 5 injected reply strings behind the 220; A: mechanisms {PLAIN, LOGIN, CRAM-MD5, unknown, '
         'none} x argument shapes {initial response, challenge/response, cancel, bad base64, empty, missing} x Unicode '
-        'credentials (3 users x 3 secrets x 2 authzids) x TLS {off, STARTTLS, immediate} x position {before EHLO, normal, '
+        'credentials (3 users x 3 secrets x 2 authzids; 7 x 8 x 2 in thorough) x TLS {off, STARTTLS, immediate} x position {before EHLO, normal, '
         'after success, inside a transaction} x validator verdict {accept, 535}.  Every combination is run on the real '
         'code; all are non-trivial except injection-free baselines.')
 ASSUMPTIONS = ['fake TLS: clear and TLS bytes travel in separate channels; a handshake with unread clear-text bytes fails '
@@ -81,6 +81,11 @@ def run_s(prefix, inj, place, script, tls='starttls'):
     clear = list(PREFIXES[prefix])
     if place == 'same':
         clear.append(b'STARTTLS\r\n' + INJECT[inj])
+    elif place.startswith('split:'):
+        k = int(place.split(':')[1])
+        clear.append(b'STARTTLS\r\n' + INJECT[inj][:k])
+        if INJECT[inj][k:]:
+            clear.append(INJECT[inj][k:])
     else:
         clear.append(b'STARTTLS\r\n')
         if INJECT[inj]:
@@ -183,6 +188,8 @@ def check_c(inj, res):
 # ---------------------------------------------------------------- AUTH gating
 USERS = ['user', 'üsér', 'a b']
 SECRETS = ['pw', 'pässwörd 密', 'p w']
+USERS_T = USERS + ['u\u0000x'.replace('\u0000', '.'), 'ǅ\u200d𝕦', 'x' * 64, '"quoted"@d']
+SECRETS_T = SECRETS + ['=', '*', ' lead', 'trail ', 'ünï\tcode']
 ZIDS = ['', 'zid']
 MSGID = '<test@example.com>'
 
@@ -244,7 +251,8 @@ def auth_cases(tier):
                             (mech == 'none' and shape != 'initial'):
                         continue
                     if kind == 'valid' and pos == 'normal':
-                        for u, s, z in itertools.product(USERS, SECRETS, ZIDS):
+                        big = tier == 'thorough' and mech != 'CRAM-MD5'
+                        for u, s, z in itertools.product(USERS_T if big else USERS, SECRETS_T if big else SECRETS, ZIDS):
                             if z and mech != 'PLAIN':
                                 continue
                             for verdict in ('accept', '535'):
@@ -374,11 +382,18 @@ def check_a(case, res):
                 ok = ok and creds.authzid == zid
             else:
                 ok = ok and creds.authzid in (None, '', user)
-            try:
-                ok = ok and bool(creds.verify(ClearIdentity(user, secret)))
-                ok = ok and not creds.verify(ClearIdentity(user, secret + 'x'))
-            except Exception as e:
-                ok = False
+            # PLAIN/LOGIN carry the secret itself: compare it exactly.  (verify() applies SASLprep, which rejects or
+            # rewrites some code points -- that is pysasl's matching rule, not an alteration by slimta.)  CRAM-MD5
+            # only carries a digest: verify() against the right and a wrong secret.
+            raw = getattr(creds, '_secret', None)
+            if raw is not None:
+                ok = ok and raw == secret
+            else:
+                try:
+                    ok = ok and bool(creds.verify(ClearIdentity(user, secret)))
+                    ok = ok and not creds.verify(ClearIdentity(user, secret + 'x'))
+                except Exception as e:
+                    ok = False
             if not ok:
                 viol.append((sig('credentials-altered', shape=shape), desc + ' creds shown: %r/%r' % (creds.authcid, creds.authzid), rep))
             authed = bool(r.server.authed)
@@ -395,10 +410,13 @@ def check_a(case, res):
 
 
 # ---------------------------------------------------------------- runner glue
-def s_cases():
+def s_cases(tier='quick'):
     for prefix in PREFIXES:
         for inj in INJECT:
-            for place in ('same', 'later'):
+            places = ['same', 'later']
+            if tier == 'thorough':
+                places += ['split:%d' % k for k in range(1, len(INJECT[inj]))]
+            for place in places:
                 for script in TLS_SCRIPTS:
                     yield (prefix, inj, place, script, 'starttls')
     for inj in INJECT:
@@ -416,7 +434,7 @@ def configs(tier, seed):
 def run_config(cfg, tier, seed):
     res = Result()
     if cfg['part'] == 'S':
-        for i, case in enumerate(s_cases()):
+        for i, case in enumerate(s_cases(tier)):
             if i % cfg['of'] != cfg['k']:
                 continue
             if case[1] != 'none':
